@@ -495,3 +495,242 @@ Proof.
   unfold pipeline_safe. simpl. fold nf. rewrite I2, O2, M2, T2, P2. rewrite <- O3, O4, Hmk. simpl.
   destruct outs; [destruct (c_pairs c); simpl in *; discriminate|reflexivity].
 Qed.
+
+(* ================================================================ C. a safe pipeline never panics on a record *)
+
+Lemma fset_ok : forall (f : fields) i v, (i < length f)%nat -> exists f', fset f i v = Ok f' /\ length f' = length f.
+Proof.
+  induction f as [|a f IH]; intros i v H; simpl in *; [lia|].
+  destruct i as [|i]; [eexists; split; reflexivity|].
+  destruct (IH i v ltac:(lia)) as [f' [H1 H2]]. rewrite H1. simpl. eexists. split; [reflexivity|]. simpl. lia.
+Qed.
+
+Lemma ccall_ok : forall nc i, (i < nc)%nat -> ccall nc i = Ok tt.
+Proof. intros nc i H. unfold ccall. destruct (Nat.ltb i nc) eqn:E; [reflexivity|]. apply Nat.ltb_ge in E. lia. Qed.
+
+Lemma slice_z_length : forall v a b r, slice_z v a b = Ok r -> (length r <= length v)%nat.
+Proof.
+  intros v a b r H. unfold slice_z in H. destruct (_ && _ && _); [|discriminate]. inversion H; subst.
+  rewrite firstn_length. etransitivity; [apply Nat.le_min_r|]. rewrite skipn_length. lia.
+Qed.
+
+Section RunSafe.
+Variable x : externals.
+Hypothesis Hx : ext_wf x.
+
+Lemma run_matcher_ok : forall nf m f, matcher_safe nf m = true -> nf <= Z.of_nat (length f) ->
+  exists b, run_matcher x m f = Ok b.
+Proof.
+  intros nf m f. induction m as [|[[loc op] expr] r IH]; intros H Hlen; simpl in *; [eauto|].
+  unfold matcher_safe in H. cbn [forallb] in H. apply andb_true_iff in H. destruct H as [H1 H2].
+  apply andb_true_iff in H1. destruct H1 as [H1 H3].
+  destruct (fget_ok f loc ltac:(lia)) as [v Hv]. rewrite Hv. cbn [obind].
+  assert (Hm : exists b, match_value x op expr v = Ok b) by (destruct op; simpl; eauto; discriminate).
+  destruct Hm as [b Hb]. rewrite Hb. cbn [obind]. destruct b; [apply IH; assumption|eauto].
+Qed.
+
+Lemma run_addfields_ok : forall nf pairs f,
+  forallb (fun p => (Z.of_nat (fst p) <? nf) && forallb (rpart_safe nf) (snd p)) pairs = true ->
+  nf <= Z.of_nat (length f) -> exists f', run_addfields pairs f = Ok f' /\ length f' = length f.
+Proof.
+  intros nf pairs. induction pairs as [|[dst parts] r IH]; intros f H Hlen; simpl in *; [eauto|].
+  apply andb_true_iff in H. destruct H as [H1 H2]. apply andb_true_iff in H1. destruct H1 as [H1 H3].
+  destruct (expand_ok f parts (rparts_safe_mono _ _ _ Hlen H3)) as [v Hv]. rewrite Hv. cbn [obind].
+  destruct (is_nil v).
+  - cbn [obind]. apply IH; assumption.
+  - destruct (fset_ok f dst v ltac:(lia)) as [f' [F1 F2]]. rewrite F1. cbn [obind].
+    destruct (IH f' H2 ltac:(lia)) as [f'' [G1 G2]]. exists f''. split; [assumption|lia].
+Qed.
+
+Lemma run_delfields_ok : forall nf locs f, forallb (fun l => Z.of_nat l <? nf) locs = true ->
+  nf <= Z.of_nat (length f) -> exists f', run_delfields locs f = Ok f' /\ length f' = length f.
+Proof.
+  intros nf locs. induction locs as [|l r IH]; intros f H Hlen; simpl in *; [eauto|].
+  apply andb_true_iff in H. destruct H as [H1 H2].
+  destruct (fset_ok f l [] ltac:(lia)) as [f' [F1 F2]]. rewrite F1. cbn [obind].
+  destruct (IH f' H2 ltac:(lia)) as [f'' [G1 G2]]. exists f''. split; [assumption|lia].
+Qed.
+
+Lemma run_captures_ok : forall nf idxs v subs i f,
+  forallb (fun s => match s with Some l => Z.of_nat l <? nf | None => true end) subs = true ->
+  nf <= Z.of_nat (length f) ->
+  (forall j, (i <= j < i + length subs)%nat -> submatch_ok (length v) idxs j) ->
+  exists f', run_captures subs i idxs v f = Ok f' /\ length f' = length f.
+Proof.
+  intros nf idxs v subs. induction subs as [|s r IH]; intros i f H Hlen Hsub; [simpl; eauto|].
+  cbn [forallb] in H. cbn [run_captures]. apply andb_true_iff in H. destruct H as [H1 H2].
+  match goal with |- context [obind ?e _] =>
+    assert (Hstep : exists f1, e = Ok f1 /\ length f1 = length f) end.
+  { destruct s as [loc|]; [|eauto].
+    destruct (Hsub i ltac:(simpl; lia)) as [a [b [Ea [Eb Hab]]]].
+    unfold zidx. rewrite Ea, Eb. cbn [obind].
+    destruct ((a <? 0) || (b <? 0)) eqn:Eneg; [eauto|].
+    destruct (slice_z_ok v a b) as [sub Hs]; try lia. rewrite Hs. cbn [obind].
+    apply fset_ok. lia. }
+  destruct Hstep as [f1 [S1 S2]]. rewrite S1. cbn [obind].
+  destruct (IH (S i) f1 H2 ltac:(lia)) as [f2 [G1 G2]].
+  - intros j Hj. apply Hsub. simpl. lia.
+  - exists f2. split; [assumption|lia].
+Qed.
+
+Definition runs_t (t : rtransform) : Prop :=
+  forall nc nf f, rt_safe nf nc t = true -> nf <= Z.of_nat (length f) ->
+  exists f' b, run_t x nc t f = Ok (f', b) /\ length f' = length f.
+Definition runs_tl (l : rtlist) : Prop :=
+  forall nc nf f, rtl_safe nf nc l = true -> nf <= Z.of_nat (length f) ->
+  exists f' b, run_tl x nc l f = Ok (f', b) /\ length f' = length f.
+Definition runs_cl (l : rclist) : Prop :=
+  forall nc nf f, rcl_safe nf nc l = true -> nf <= Z.of_nat (length f) ->
+  exists f' b, run_cl x nc l f = Ok (f', b) /\ length f' = length f.
+
+Ltac req := rewrite ?run_t_block, ?run_t_if, ?run_t_switch, ?run_tl_cons, ?run_cl_cons; cbn [run_t run_tl run_cl].
+
+Lemma run_transforms_ok : (forall t, runs_t t) /\ (forall l, runs_tl l) /\ (forall l, runs_cl l).
+Proof.
+  apply rtransform_mutind; unfold runs_t, runs_tl, runs_cl.
+  - (* RAddFields *) intros pairs nc nf f H Hlen. seq_in H. req.
+    destruct (run_addfields_ok _ _ _ H Hlen) as [f' [H1 H2]]. rewrite H1. cbn [obind]. eauto.
+  - (* RBlock *) intros steps IH nc nf f H Hlen. seq_in H. req. eauto.
+  - (* RDelFields *) intros locs nc nf f H Hlen. seq_in H. req.
+    destruct (run_delfields_ok _ _ _ H Hlen) as [f' [H1 H2]]. rewrite H1. cbn [obind]. eauto.
+  - (* RDrop *) intros m rate cd cr nc nf f H Hlen. seq_in H. req. split_and H.
+    destruct (run_matcher_ok _ _ _ H Hlen) as [b Hb]. rewrite Hb. cbn [obind].
+    destruct b; cbn [negb]; [|eauto].
+    destruct (rate =? 100) eqn:E100.
+    + rewrite (ccall_ok nc cd ltac:(lia)). cbn [obind]. eauto.
+    + destruct (x_drop_choice x rate f).
+      * rewrite (ccall_ok nc cd ltac:(lia)). cbn [obind]. eauto.
+      * destruct cr as [i|]; [|discriminate]. rewrite (ccall_ok nc i ltac:(lia)). cbn [obind]. eauto.
+  - (* RExtract *) intros key pattern subs nc nf f H Hlen. seq_in H. req. split_and H.
+    destruct (fget_ok f key ltac:(lia)) as [v Hv]. rewrite Hv. cbn [obind].
+    destruct (x_regex_find x pattern (length subs) v) as [idxs|] eqn:Er; [|eauto].
+    destruct (run_captures_ok nf idxs v subs 0%nat f H0 Hlen) as [f' [H1 H2]].
+    + intros j Hj. destruct Hx as [Hre _]. eapply Hre; [eassumption|lia].
+    + rewrite H1. cbn [obind]. eauto.
+  - (* RExtractSpecial *) intros src dst ex nc nf f H Hlen. seq_in H. req. split_and H.
+    destruct (fget_ok f src ltac:(lia)) as [v Hv]. rewrite Hv. cbn [obind].
+    destruct (is_nil v); [eauto|].
+    destruct (extract_total ex v H0) as [[label rest] He]. rewrite He. cbn [obind].
+    destruct (Nat.eqb (length rest) (length v)); [eauto|].
+    destruct (fset_ok f src rest ltac:(lia)) as [f1 [F1 F2]]. rewrite F1. cbn [obind].
+    destruct (fset_ok f1 dst label ltac:(lia)) as [f2 [G1 G2]]. rewrite G1. cbn [obind].
+    eexists. eexists. split; [reflexivity|lia].
+  - (* RIf *) intros m then_ IH nc nf f H Hlen. seq_in H. req. split_and H.
+    destruct (run_matcher_ok _ _ _ H Hlen) as [b Hb]. rewrite Hb. cbn [obind]. destruct b; eauto.
+  - (* RMapValue *) intros key mapping default nc nf f H Hlen. seq_in H. req.
+    destruct (fget_ok f key ltac:(lia)) as [v Hv]. rewrite Hv. cbn [obind].
+    destruct (is_nil v); [eauto|].
+    destruct (fset_ok f key (match lookup mapping v with Some b => b | None => default end) ltac:(lia)) as [f1 [F1 F2]].
+    rewrite F1. cbn [obind]. eauto.
+  - (* RParseTime *) intros key cnt nc nf f H Hlen. seq_in H. req. split_and H.
+    destruct (fget_ok f key ltac:(lia)) as [v Hv]. rewrite Hv. cbn [obind].
+    destruct (is_nil v); [eauto|]. destruct (x_time_ok x v); [eauto|].
+    rewrite (ccall_ok nc cnt ltac:(lia)). cbn [obind]. eauto.
+  - (* RRedactEmail *) intros key cnt nc nf f H Hlen. seq_in H. req. split_and H.
+    destruct (fget_ok f key ltac:(lia)) as [v Hv]. rewrite Hv. cbn [obind].
+    destruct (is_nil v); [eauto|]. destruct (x_redact x v) as [v'|]; [|eauto].
+    destruct (fset_ok f key v' ltac:(lia)) as [f1 [F1 F2]]. rewrite F1. cbn [obind].
+    rewrite (ccall_ok nc cnt ltac:(lia)). cbn [obind]. eauto.
+  - (* RReplace *) intros key pattern repl nc nf f H Hlen. seq_in H. req.
+    destruct (fget_ok f key ltac:(lia)) as [v Hv]. rewrite Hv. cbn [obind].
+    destruct (is_nil v); [eauto|].
+    destruct (fset_ok f key (x_regex_replace x pattern v repl) ltac:(lia)) as [f1 [F1 F2]]. rewrite F1. cbn [obind]. eauto.
+  - (* RSwitch *) intros cases IH nc nf f H Hlen. seq_in H. req. eauto.
+  - (* RTruncate *) intros key maxlen suffix nc nf f H Hlen. seq_in H. req. split_and H.
+    destruct (fget_ok f key ltac:(lia)) as [v Hv]. rewrite Hv. cbn [obind].
+    destruct (Z.of_nat (length v) >? maxlen + Z.of_nat (length suffix)) eqn:E; [|eauto].
+    destruct (slice_z_ok v 0 maxlen) as [head Hh]; try lia. rewrite Hh. cbn [obind].
+    pose proof (slice_z_length _ _ _ _ Hh) as Hhl.
+    destruct Hx as [_ Hcl]. pose proof (Hcl head) as Hc.
+    destruct (Nat.ltb (length v) (x_clean_len x head)) eqn:El; [apply Nat.ltb_lt in El; lia|].
+    destruct (fset_ok f key (firstn (x_clean_len x head) v ++ firstn (length v - x_clean_len x head) suffix) ltac:(lia)) as [f1 [F1 F2]].
+    rewrite F1. cbn [obind]. eauto.
+  - (* RUnescape *) intros key nc nf f H Hlen. seq_in H. req.
+    destruct (fget_ok f key ltac:(lia)) as [v Hv]. rewrite Hv. cbn [obind].
+    destruct (is_nil v); [eauto|].
+    destruct (fset_ok f key (x_unescape x v) ltac:(lia)) as [f1 [F1 F2]]. rewrite F1. cbn [obind]. eauto.
+  - (* RTNil *) intros nc nf f H Hlen. req. eauto.
+  - (* RTCons *) intros t IHt ts IHts nc nf f H Hlen. seq_in H. req. split_and H.
+    destruct (IHt nc nf f H Hlen) as [f1 [b [R1 R2]]]. rewrite R1. cbn [obind].
+    destruct b; [|eauto].
+    destruct (IHts nc nf f1 H0 ltac:(lia)) as [f2 [b2 [S1 S2]]]. exists f2, b2. split; [assumption|lia].
+  - (* RCNil *) intros nc nf f H Hlen. req. eauto.
+  - (* RCCons *) intros m then_ IHt cs IHcs nc nf f H Hlen. seq_in H. req. split_and H.
+    destruct (run_matcher_ok _ _ _ H Hlen) as [b Hb]. rewrite Hb. cbn [obind]. destruct b; eauto.
+Qed.
+
+Lemma run_tl_ok : forall l nc nf f, rtl_safe nf nc l = true -> nf <= Z.of_nat (length f) ->
+  exists f' b, run_tl x nc l f = Ok (f', b) /\ length f' = length f.
+Proof. apply run_transforms_ok. Qed.
+
+Lemma get_all_ok : forall n locs (f : fields), forallb (fun l => Z.of_nat l <? n) locs = true -> n <= Z.of_nat (length f) ->
+  exists vs, get_all locs f = Ok vs /\ length vs = length locs.
+Proof.
+  intros n locs f. induction locs as [|l r IH]; intros H Hlen; simpl in *; [eauto|].
+  apply andb_true_iff in H. destruct H as [H1 H2].
+  destruct (fget_ok f l ltac:(lia)) as [v Hv]. rewrite Hv. cbn [obind].
+  destruct (IH H2 Hlen) as [vs [G1 G2]]. rewrite G1. cbn [obind]. eexists. split; [reflexivity|]. simpl. lia.
+Qed.
+
+Lemma run_chain_ok : forall nf ch (f : fields), chain_safe nf ch = true -> nf <= Z.of_nat (length f) -> run_chain ch f = Ok tt.
+Proof.
+  intros nf ch f. induction ch as [|r rest IH]; intros H Hlen; simpl in *; [reflexivity|].
+  destruct r as [| |loc]; try reflexivity. split_and H.
+  destruct (fget_ok f loc ltac:(lia)) as [v Hv]. rewrite Hv. cbn [obind].
+  destruct rest; [discriminate|]. apply IH; assumption.
+Qed.
+
+Lemma run_chains_ok : forall nf chains (f : fields), forallb (chain_safe nf) chains = true -> nf <= Z.of_nat (length f) ->
+  run_chains chains f = Ok tt.
+Proof.
+  intros nf chains f. induction chains as [|ch r IH]; intros H Hlen; simpl in *; [reflexivity|].
+  apply andb_true_iff in H. destruct H as [H1 H2]. rewrite (run_chain_ok _ _ _ H1 Hlen). cbn [obind]. auto.
+Qed.
+
+Lemma run_serializer_ok : forall nf s (f : fields), serializer_safe nf s = true -> nf <= Z.of_nat (length f) ->
+  run_serializer s f = Ok tt.
+Proof.
+  intros nf s f H Hlen. destruct s as [nmask env chains|nmask]; simpl in *.
+  - split_and H. unfold take_fields. destruct (Nat.leb nmask (length f)) eqn:E; [|apply Nat.leb_gt in E; lia].
+    cbn [obind]. rewrite (run_chains_ok _ _ _ H0 Hlen). cbn [obind].
+    destruct (get_all_ok (Z.of_nat nmask) env (firstn nmask f) H1) as [vs [G _]].
+    + rewrite firstn_length. apply Nat.leb_le in E. lia.
+    + rewrite G. reflexivity.
+  - unfold take_fields. destruct (Nat.leb nmask (length f)) eqn:E; [reflexivity|apply Nat.leb_gt in E; lia].
+Qed.
+
+Lemma run_serializers_ok : forall nf l (f : fields), forallb (serializer_safe nf) l = true -> nf <= Z.of_nat (length f) ->
+  run_serializers l f = Ok tt.
+Proof.
+  intros nf l f. induction l as [|s r IH]; intros H Hlen; simpl in *; [reflexivity|].
+  apply andb_true_iff in H. destruct H as [H1 H2]. rewrite (run_serializer_ok _ _ _ H1 Hlen). cbn [obind]. auto.
+Qed.
+
+Lemma run_orch_ok : forall nf o (f : fields), orch_safe nf o = true -> nf <= Z.of_nat (length f) -> run_orch o f = Ok tt.
+Proof.
+  intros nf o f H Hlen. destruct o as [locs tag|]; simpl in *; [|reflexivity]. split_and H.
+  destruct (get_all_ok nf locs f H Hlen) as [keys [G1 G2]]. rewrite G1. cbn [obind].
+  destruct (expand_ok keys tag) as [v Hv]; [rewrite G2; assumption|]. rewrite Hv. reflexivity.
+Qed.
+
+Theorem safe_pipeline_runs : forall p i f, pipeline_safe p = true -> Z.of_nat (length f) = pl_nfields p ->
+  run_record x p i f = Ok tt.
+Proof.
+  intros p i f H Hlen. unfold pipeline_safe in H. split_and H. unfold run_record.
+  destruct (nth_error (pl_inputs p) i) as [[ex nc_in]|] eqn:Ei; [|reflexivity].
+  assert (Hex : rtl_safe (pl_nfields p) nc_in ex = true).
+  { apply nth_error_In in Ei. rewrite forallb_forall in H. apply (H _ Ei). }
+  destruct (is_nil (pl_outputs p)) eqn:Eo; [discriminate|].
+  destruct (run_tl_ok ex nc_in (pl_nfields p) f Hex ltac:(lia)) as [f1 [b [R1 R2]]]. rewrite R1. cbn [obind].
+  destruct b; cbn [negb]; [|reflexivity].
+  rewrite H0. rewrite (run_orch_ok _ _ f1 H5 ltac:(lia)). cbn [obind].
+  destruct (get_all_ok _ _ f1 H4 ltac:(lia)) as [vs [G _]]. rewrite G. cbn [obind].
+  destruct (run_tl_ok (pl_transforms p) (pl_ncounters p) (pl_nfields p) f1 H3 ltac:(lia)) as [f2 [b2 [S1 S2]]].
+  rewrite S1. cbn [obind]. destruct b2; cbn [negb]; [|reflexivity].
+  apply (run_serializers_ok (pl_nfields p)); [assumption|lia].
+Qed.
+
+End RunSafe.
+
+Theorem safe_pipeline_records_safe : forall p, pipeline_safe p = true -> records_safe p.
+Proof. intros p H x Hx i f Hlen. rewrite (safe_pipeline_runs x Hx p i f H Hlen). reflexivity. Qed.
